@@ -8,7 +8,8 @@
       - TVGen.Gen_time_consts    LEAPOCH, DAYS_PER_400Y, DAYS_PER_100Y, DAYS_PER_4Y, DAYS_IN_MONTH   (translators/time_consts.py)
       - TVGen.Gen_datetime       [split], [day_split], [cycle_split], [in_cycle], [years_of], [month_loop], [months_of],
                                  [finish], [from_parts], [from_systemtime], [display]: every statement of the two
-                                 function bodies, one monadic step per Rust operation  (translators/datetime_rs.py)
+                                 function bodies, one monadic step per Rust operation; [format_system_time]: what
+                                 fmt/time/mod.rs's `SystemTime::format_time` (and the hook H2) writes  (translators/datetime_rs.py)
     both regenerated from the source on every run; this file only composes them. *)
 From Coq Require Import ZArith List Bool String.
 From TV Require Export Time.MuslBase.
@@ -16,12 +17,6 @@ From TVGen Require Export Gen_time_consts Gen_datetime.
 Import ListNotations.
 Local Open Scope Z_scope.
 
-(** What `SystemTime::format_time` writes for the instant (tv_sec, tv_nsec): ASCII codes, or [None] = panic.
-    (fmt/time/mod.rs: `write!(w, "{}", datetime::DateTime::from(std::time::SystemTime::now()))`.) *)
-Definition format_system_time (md : mode) (tv_sec tv_nsec : Z) : option (list Z) :=
-  dt <- from_systemtime md tv_sec tv_nsec ;;
-  display md dt.
-
-(** The instant's fields in print order: (year, month, day, hour, minute, second, microseconds printed). *)
-Definition fields_of (dt : datetime) : Z * Z * Z * Z * Z * Z * Z :=
-  (year dt, month dt, day dt, hour dt, minute dt, second dt, nanos dt / 1000).
+(** The fields in print order: [year; month; day; hour; minute; second; microseconds printed]. *)
+Definition fields_of (dt : datetime) : list Z :=
+  [year dt; month dt; day dt; hour dt; minute dt; second dt; nanos dt / 1000].
